@@ -66,7 +66,7 @@ def body_sig(n, level):
     or its target path): the function name is derived from this, so that two
     nodes share a name iff they share a body."""
     return [n['k'], n.get('mode', 'ok'), bool(n.get('wfirst')), level,
-            bool(n.get('usever')), n.get('tag'),
+            bool(n.get('usever')), n.get('tag'), n.get('stamp'),
             [stmt_sig(s, level) for s in n.get('ch', [])]]
 
 
@@ -212,13 +212,14 @@ class Interp:
         obs = [fn, list(args), dict(kwargs)]
         self.invocations.append([fn, api.target_rel(), jcopy(list(args)), jcopy(dict(kwargs))])
         if n.get('usever'):
-            obs.append(['ver', self.versions.get(fn)])
+            # behaviour depends on the version only up to JSON equality (user obligation)
+            obs.append(['ver', vtoken(self.versions.get(fn))])
         mode = n.get('mode', 'ok')
         isbf = n['k'] == 'bf'
         writes = isbf and mode in ('ok', 'ra', 'nj')
         self.point()
         if writes and n.get('wfirst'):
-            api.write(content_of(obs))
+            api.write(content_of(obs), n.get('stamp') == 'fixed')
         self.exec_stmts(api, n.get('ch', []), obs)
         if self.level == 2:
             obs.append(['bat', api.battery(self.paths, False)])
@@ -232,13 +233,27 @@ class Interp:
         if mode in USER_EXC_MODES:
             self.raise_user(mode, USER_EXC_MODES[mode])
         if writes and not n.get('wfirst'):
-            api.write(content_of(obs))
+            api.write(content_of(obs), n.get('stamp') == 'fixed')
         self.point()
         if mode == 'ra':
             self.raise_user('ra')
         if mode == 'nj':
             return {1, 2}
         return obs
+
+
+def vtoken(v):
+    def norm(x):
+        if isinstance(x, bool) or x is None or isinstance(x, str):
+            return x
+        if isinstance(x, float) and x.is_integer():
+            return int(x)
+        if isinstance(x, (list, tuple)):
+            return [norm(y) for y in x]
+        if isinstance(x, dict):
+            return {k: norm(y) for k, y in x.items()}
+        return x
+    return canon(norm(v))
 
 
 def jcopy(v):
